@@ -71,6 +71,31 @@ fn judge<T: Sc>(idx: usize, l: &ThLine, rep: &mut Report) {
             });
         }
     }
+    // C06: the weighted problem is the unweighted problem on row-scaled model and data - under the
+    // DEFAULT threshold too (the threshold is absolute: it does not know about the weights)
+    {
+        let phi_w = DMatrix::from_fn(n, m, |i, j| if i == j { w[i] * T::of64((j + 1) as f64) } else { T::zero() });
+        let twin_table = Arc::new(Table { n, m, p: 1, entries: vec![TableEntry { a: vec![0], phi: phi_w, dphi: vec![DMatrix::from_element(n, m, T::zero())] }] });
+        let y_w = DMatrix::from_fn(n, s, |i, c| w[i] * y[(i, c)]);
+        for par in [false, true] {
+            let cw = build_problem(TableModel::new(table.clone(), &[0]), true, par, &y, Some(&w), eps).ok().and_then(|p| p.coeffs());
+            let ct = build_problem(TableModel::new(twin_table.clone(), &[0]), true, par, &y_w, None, eps).ok().and_then(|p| p.coeffs());
+            match (cw, ct) {
+                (Some(cw), Some(ct)) => {
+                    let scale = cw.iter().chain(ct.iter()).fold(1.0f64, |mx, v| mx.max(v.to64().abs()));
+                    let d = cw.iter().zip(ct.iter()).fold(0.0f64, |mx, (a, b)| {
+                        let x = (a.to64() - b.to64()).abs() / scale;
+                        mx.max(if x.is_finite() { x } else { f64::INFINITY })
+                    });
+                    rep.check("C06", d <= T::tol(), d, || {
+                        json!({"flavour": format!("line={} {} M={} N={} ks={:?} thr={}{} par={}", idx, T::NAME, m, n, l.ks, l.thr.kind, l.thr.u, par), "dev": d,
+                               "what": "weighted problem and its row-scaled unweighted twin truncate differently (same threshold)"})
+                    });
+                }
+                (a, b) => rep.check("C06", a.is_some() == b.is_some(), 0.0, || json!({"flavour": format!("line={} {}", idx, T::NAME), "what": "coefficients present for one of weighted problem / row-scaled twin only"})),
+            }
+        }
+    }
     // C07: column q of the coefficients of the problem with S right hand sides is what the single
     // right hand side problem on column q gives - under the same threshold
     if s >= 2 {
